@@ -31,7 +31,11 @@ import (
 //   close <c>                       client closes the connection
 //   idle                            wait for the idle shutdown: "returned mode=-" | "serving mode=…" (bounded wait)
 //   stat                            "accepting mode=…" | "closed mode=…"
+//   wait <ms>                       let time pass
 //   storm <conns> <calls>           concurrent search on a private listener: every client checks its own answers
+//
+// Every line handed to the model carries ` @<ms>`, the time since `listen` at which it starts (the clock is
+// an environment input). Operations that start within 40 ms of an armed idle timer's deadline are `void`.
 //
 // With an idle timeout configured the generator dials new connections only while another one is
 // open (otherwise the dial would race the re-armed timer, a window the model documents and the
@@ -76,6 +80,9 @@ func c42Server() *vgirpc.Server {
 var c42Seq atomic.Int64
 var c42NoReturn atomic.Int32
 
+// scheduling latency allowed around a timer deadline (ms); must equal Drive/C42.lean `margin`
+const c42Margin = 40
+
 type c42Listener struct {
 	kind     string
 	idle     time.Duration
@@ -87,10 +94,14 @@ type c42Listener struct {
 	retAt    time.Time
 	conns    map[int]net.Conn
 	lastZero time.Time // when the last client connection was closed by the script
+	t0       time.Time // clock origin of the script's @ms stamps
+	zeroMs   int       // @ms stamp of the close that brought the open count to zero (-1: none)
+	void     bool
+	curMs    int
 }
 
 func c42Start(kind string, idleMs int) (*c42Listener, error) {
-	l := &c42Listener{kind: kind, idle: time.Duration(idleMs) * time.Millisecond, done: make(chan struct{}), conns: map[int]net.Conn{}}
+	l := &c42Listener{kind: kind, idle: time.Duration(idleMs) * time.Millisecond, done: make(chan struct{}), conns: map[int]net.Conn{}, zeroMs: -1}
 	srv := c42Server()
 	ready := make(chan string, 1)
 	if kind == "unix" {
@@ -257,15 +268,40 @@ func c42Exec(c *Case) {
 				continue
 			}
 			l = nl
+			l.t0 = time.Now()
 			m := l.mode()
 			if l.kind == "unix" && m != "mode=384" {
 				c.Oracle("socket-mode", fmt.Sprintf("socket file is %s after bind, want owner-only 0600", m))
 			}
 			c.Stat("listen-" + f[1])
-			c.Out(line, "bound "+m)
+			c.Out(line+" @0", "bound "+m)
 			continue
 		}
-		c.Out(line, c42Line(c, l, line, f))
+		// the script's clock: every line carries the time at which it starts
+		tau := int(time.Since(l.t0) / time.Millisecond)
+		stamped := fmt.Sprintf("%s @%d", line, tau)
+		if l.void {
+			c.Out(stamped, "void")
+			continue
+		}
+		// an armed idle timer (no open connection): too close to its deadline nothing can be predicted
+		if l.idle > 0 && len(l.conns) == 0 && l.zeroMs >= 0 && !(len(f) == 1 && f[0] == "idle") {
+			deadline := l.zeroMs + int(l.idle/time.Millisecond)
+			if tau < deadline+c42Margin && deadline < tau+c42Margin {
+				l.void = true
+				c.Stat("void")
+				c.Out(stamped, "void")
+				continue
+			}
+			if tau >= deadline+c42Margin {
+				l.zeroMs = -1 // the timer has expired by now (the model lets it expire here as well)
+			}
+			if tau < deadline && (f[0] == "conn" || f[0] == "stat") && l.returned.Load() {
+				c.Oracle("returned-before-idle-period", fmt.Sprintf("listener returned %d ms after the last close although the idle timeout is %v", tau-l.zeroMs, l.idle))
+			}
+		}
+		l.curMs = tau
+		c.Out(stamped, c42Line(c, l, line, f))
 	}
 }
 
@@ -288,6 +324,9 @@ func c42Line(c *Case, l *c42Listener, line string, f []string) string {
 		}
 		conn, err := net.DialTimeout(l.network(), l.addr, 2*time.Second)
 		if err != nil {
+			if l.idle > 0 && len(l.conns) == 0 && l.zeroMs >= 0 && l.curMs+c42Margin <= l.zeroMs+int(l.idle/time.Millisecond) {
+				c.Oracle("returned-before-idle-period", fmt.Sprintf("dial refused %d ms after the last close: the listener stopped although the idle timeout is %v", l.curMs-l.zeroMs, l.idle))
+			}
 			return "refused"
 		}
 		if err := c42Send(conn, 0); err != nil {
@@ -363,12 +402,13 @@ func c42Line(c *Case, l *c42Listener, line string, f []string) string {
 		delete(l.conns, n)
 		if len(l.conns) == 0 {
 			l.lastZero = time.Now()
+			l.zeroMs = l.curMs
 		}
 		c.Stat("close")
 		return "ok"
 	case f[0] == "idle" && len(f) == 1:
 		open := len(l.conns)
-		wait := 2*l.idle + 15*time.Millisecond
+		wait := min(2*l.idle+15*time.Millisecond, 70*time.Millisecond)
 		if l.idle > 0 && open == 0 && !l.lastZero.IsZero() {
 			wait = l.idle + 1500*time.Millisecond // it must return; waiting ends as soon as it does
 			if c42NoReturn.Load() >= 3 {
@@ -383,6 +423,7 @@ func c42Line(c *Case, l *c42Listener, line string, f []string) string {
 		case <-time.After(wait):
 		}
 		if l.returned.Load() {
+			l.zeroMs = -1
 			c.Stat("idle-returned")
 			if open > 0 {
 				c.Oracle("stopped-while-open", fmt.Sprintf("listener returned while %d connection(s) were open", open))
@@ -418,6 +459,14 @@ func c42Line(c *Case, l *c42Listener, line string, f []string) string {
 			}
 		}
 		return "serving " + l.mode()
+	case f[0] == "wait" && len(f) == 2:
+		n, err := strconv.Atoi(f[1])
+		if err != nil || n < 0 {
+			return "bad-op"
+		}
+		time.Sleep(time.Duration(n) * time.Millisecond)
+		c.Stat("wait")
+		return "ok"
 	case f[0] == "stat" && len(f) == 1:
 		m := l.mode()
 		if l.returned.Load() {
@@ -528,7 +577,7 @@ func c42Storm(c *Case, kind string, nc, nk int) string {
 
 func c42Gen(g *Gen) {
 	r := g.Rng
-	n := g.N(160, 2500)
+	n := g.N(140, 2500)
 	for i := 0; i < n; i++ {
 		kind := Pick(r, []string{"unix", "unix", "tcp"})
 		idle := Pick(r, []int{20, 30, 50, 20, 30, 0})
@@ -614,6 +663,25 @@ func c42Gen(g *Gen) {
 		lines = append(lines, "idle", "stat")
 		if everOpen && idle > 0 {
 			lines = append(lines, fmt.Sprintf("conn %d", next), "idle")
+		}
+		g.Case(lines...)
+	}
+	// reconnects relative to the idle timer: close (arms T), reconnect within T, close again — the idle
+	// period restarts at the LAST close: a dial 0.75 T later must be served, the listener may return
+	// only a full T after it
+	rc := g.N(8, 80)
+	for i := 0; i < rc; i++ {
+		kind := Pick(r, []string{"tcp", "unix", "tcp"})
+		T := Pick(r, []int{400, 500})
+		lines := []string{fmt.Sprintf("listen %s %d", kind, T), "conn 1", "call 1 1", "close 1",
+			fmt.Sprintf("wait %d", T*45/100), "conn 2", "call 2 2", "close 2"}
+		switch r.Intn(3) {
+		case 0:
+			lines = append(lines, "idle", "stat")
+		case 1:
+			lines = append(lines, fmt.Sprintf("wait %d", T*75/100), "conn 3", "call 3 3", "close 3", "idle", "stat")
+		default:
+			lines = append(lines, fmt.Sprintf("wait %d", T*30/100), "conn 3", "close 3", fmt.Sprintf("wait %d", T*75/100), "stat", "conn 4", "call 4 4", "close 4", "idle")
 		}
 		g.Case(lines...)
 	}
